@@ -265,6 +265,9 @@ class DependencyTransformation(Transformation):
                 continue
             if targets is None or call.name in targets:
                 orig_name = str(call.name)
+                if orig_name.lower().endswith(self.suffix.lower()):
+                    # Already renamed (idempotence, as for the routine name in transform_subroutine)
+                    continue
                 new_name = f'{orig_name}{self.suffix}'
                 new_type = call.name.type.clone(dtype=ProcedureType(name=new_name))
                 call._update(name=call.name.clone(name=new_name, type=new_type))
@@ -275,6 +278,8 @@ class DependencyTransformation(Transformation):
                 continue
             if targets is None or call.function in targets:
                 orig_name = str(call.name)
+                if orig_name.lower().endswith(self.suffix.lower()):
+                    continue
                 new_name = f'{orig_name}{self.suffix}'
                 new_type = call.function.type.clone(dtype=ProcedureType(name=new_name))
                 call.function = call.function.clone(name=new_name, type=new_type)
@@ -320,7 +325,8 @@ class DependencyTransformation(Transformation):
         for im in imports:
             if im.c_import:
                 target_symbol, *suffixes = im.module.lower().split('.', maxsplit=1)
-                if targets and target_symbol.lower() in targets and not 'func.h' in suffixes:
+                if targets and target_symbol.lower() in targets and not 'func.h' in suffixes \
+                        and not target_symbol.endswith(self.suffix.lower()):
                     # Modify the the basename of the C-style header import
                     s = '.'.join(im.module.split('.')[1:])
                     im._update(module=f'{target_symbol}{self.suffix}.{s}')
